@@ -1,0 +1,50 @@
+//go:build verif
+
+// Machine-checked contracts for package wsjson, consumed by the gvc verifier in /verif
+// (comment-only: this file adds no code to the package). Syntax: /verif/DESIGN.md 2.4, 8.9.
+package wsjson
+
+// C19. gvcCalls / gvcCallArg / gvcCallRes / gvcCallSeq are the call-trace ghost: which
+// functions under contract were called on the path, with which arguments and results, and
+// in which order. websocket.Gvc* are exported views of the connection invariant that exist
+// only in the verifier's overlay.
+
+//@ func wsjson.read
+//@ tags C19
+//@ requires websocket.GvcUsable(c) && ctx != nil
+//@ opt noframe=mem:u8
+//@ modifies footprint(websocket.GvcModRead(c))
+//@ ensures [one-message] gvcCalls("(*Conn).reader") == 1 && gvcCallArg[*websocket.Conn]("(*Conn).reader", 0) == c && gvcCallArg[context.Context]("(*Conn).reader", 1) == ctx
+//@ ensures [reader-fails] gvcCallRes[error]("(*Conn).reader", 2) != nil ==> err != nil && gvcCalls("(*bytes.Buffer).ReadFrom") == 0 && gvcCalls("json.Unmarshal") == 0 && gvcCalls("(*Conn).Close") == 0
+//@ ensures [whole-message] gvcCallRes[error]("(*Conn).reader", 2) == nil ==> gvcCalls("(*bytes.Buffer).ReadFrom") == 1 && gvcCallArg[io.Reader]("(*bytes.Buffer).ReadFrom", 1) == gvcCallRes[io.Reader]("(*Conn).reader", 1) && gvcCallArg[*bytes.Buffer]("(*bytes.Buffer).ReadFrom", 0) == gvcCallRes[*bytes.Buffer]("bpool.Get", 0)
+//@ ensures [read-error] gvcCalls("(*bytes.Buffer).ReadFrom") == 1 && gvcCallRes[error]("(*bytes.Buffer).ReadFrom", 1) != nil ==> err != nil && gvcCalls("json.Unmarshal") == 0 && gvcCalls("(*Conn).Close") == 0
+//@ ensures [decode] gvcCalls("(*bytes.Buffer).ReadFrom") == 1 && gvcCallRes[error]("(*bytes.Buffer).ReadFrom", 1) == nil ==> gvcCalls("json.Unmarshal") == 1 && gvcCallArg[interface{}]("json.Unmarshal", 1) == v && gvcCalls("(*bytes.Buffer).Bytes") == 1 && gvcSameSlice(gvcCallArg[[]byte]("json.Unmarshal", 0), gvcCallRes[[]byte]("(*bytes.Buffer).Bytes", 0)) && gvcCallArg[*bytes.Buffer]("(*bytes.Buffer).Bytes", 0) == gvcCallRes[*bytes.Buffer]("bpool.Get", 0) && gvcCallSeq("(*bytes.Buffer).Bytes") > gvcCallSeq("(*bytes.Buffer).ReadFrom")
+//@ ensures [invalid-closes] gvcCalls("json.Unmarshal") == 1 && gvcCallRes[error]("json.Unmarshal", 0) != nil ==> err != nil && gvcCalls("(*Conn).Close") == 1 && gvcCallArg[websocket.StatusCode]("(*Conn).Close", 1) == websocket.StatusInvalidFramePayloadData && gvcCallArg[*websocket.Conn]("(*Conn).Close", 0) == c
+//@ ensures [valid-ok] gvcCalls("json.Unmarshal") == 1 && gvcCallRes[error]("json.Unmarshal", 0) == nil ==> err == nil && gvcCalls("(*Conn).Close") == 0
+//@ ensures [nil-only-if-decoded] err == nil ==> gvcCalls("json.Unmarshal") == 1 && gvcCallRes[error]("json.Unmarshal", 0) == nil
+//@ ensures [buffer-returned] {C19 C07} gvcCalls("bpool.Get") == gvcCalls("bpool.Put") && (gvcCalls("bpool.Get") == 1 ==> gvcCallArg[*bytes.Buffer]("bpool.Put", 0) == gvcCallRes[*bytes.Buffer]("bpool.Get", 0))
+//@ ensures [buffer-used-before-return] {C19 C07} gvcCalls("bpool.Put") == 1 ==> gvcCallSeq("bpool.Put") > gvcCallSeq("json.Unmarshal") && gvcCallSeq("bpool.Put") > gvcCallSeq("(*bytes.Buffer).ReadFrom") && gvcCallSeq("bpool.Put") > gvcCallSeq("(*bytes.Buffer).Bytes")
+
+//@ func wsjson.Read
+//@ tags C19
+//@ requires websocket.GvcUsable(c) && ctx != nil
+//@ opt noframe=mem:u8
+//@ modifies footprint(websocket.GvcModRead(c))
+//@ ensures [delegates] gvcCalls("wsjson.read") == 1 && result == gvcCallRes[error]("wsjson.read", 0) && gvcCallArg[*websocket.Conn]("wsjson.read", 1) == c && gvcCallArg[interface{}]("wsjson.read", 2) == v && gvcCallArg[context.Context]("wsjson.read", 0) == ctx
+
+//@ func wsjson.write
+//@ tags C19
+//@ requires websocket.GvcWritable(c) && ctx != nil
+//@ opt noframe=mem:u8
+//@ modifies footprint(websocket.GvcModWrite(c))
+//@ ensures [at-most-one-message] gvcCalls("(*Conn).Write") <= 1
+//@ ensures [one-text-message] err == nil ==> gvcCalls("(*Conn).Write") == 1 && gvcCallRes[error]("(*Conn).Write", 0) == nil
+//@ ensures [text] gvcCalls("(*Conn).Write") == 1 ==> gvcCallArg[websocket.MessageType]("(*Conn).Write", 2) == websocket.MessageText && gvcCallArg[*websocket.Conn]("(*Conn).Write", 0) == c && gvcCallArg[context.Context]("(*Conn).Write", 1) == ctx
+//@ ensures [write-error] gvcCalls("(*Conn).Write") == 1 && gvcCallRes[error]("(*Conn).Write", 0) != nil ==> err != nil
+
+//@ func wsjson.Write
+//@ tags C19
+//@ requires websocket.GvcWritable(c) && ctx != nil
+//@ opt noframe=mem:u8
+//@ modifies footprint(websocket.GvcModWrite(c))
+//@ ensures [delegates] gvcCalls("wsjson.write") == 1 && result == gvcCallRes[error]("wsjson.write", 0) && gvcCallArg[*websocket.Conn]("wsjson.write", 1) == c && gvcCallArg[interface{}]("wsjson.write", 2) == v
